@@ -143,6 +143,52 @@ class Finding:
         self.known = None
 
 
+def _canon_mp(answer):
+    """canonical form of a BOOL answer up to the order of polygons / holes and the start vertex of rings
+    (direction, grouping, coordinates and the event counters are kept)"""
+    toks = answer.split()
+    if len(toks) < 4 or toks[0] != "OK" or "MP" not in toks:
+        return None
+    i = toks.index("MP")
+    head = toks[:i]
+    try:
+        j = i + 1
+        npoly = int(toks[j]); j += 1
+        polys = []
+        for _ in range(npoly):
+            nr = int(toks[j]); j += 1
+            rings = []
+            for _ in range(nr):
+                npts = int(toks[j]); j += 1
+                pts = [(toks[j + 2 * k], toks[j + 2 * k + 1]) for k in range(npts)]
+                j += 2 * npts
+                if len(pts) > 1 and pts[0] == pts[-1]:
+                    body = pts[:-1]
+                    m = min(range(len(body)), key=lambda k: body[k])
+                    body = body[m:] + body[:m]
+                    pts = body + [body[0]]
+                rings.append(tuple(pts))
+            polys.append((rings[0], tuple(sorted(rings[1:]))) if rings else ((), ()))
+        return (tuple(head), tuple(sorted(polys)))
+    except (ValueError, IndexError):
+        return None
+
+
+def _strip_shape(answer):
+    """SPLAY answers without the Debug-shape tokens (the shape of the tree is not part of C17)"""
+    return " ".join(t for t in answer.split() if not t.startswith("D"))
+
+
+def same_up_to_representation(req, impl, model):
+    kind = req.split(" ", 1)[0]
+    if kind == "BOOL":
+        a, b = _canon_mp(impl), _canon_mp(model)
+        return a is not None and a == b
+    if kind in ("SPLAYMAP", "SPLAYSET"):
+        return _strip_shape(impl) == _strip_shape(model)
+    return False
+
+
 def parse_kv(text):
     return dict(t.split("=", 1) for t in text.split() if "=" in t)
 
@@ -272,7 +318,12 @@ def evaluate(prop, results, hangs, st, bound_check=False):
             if nontrivial_run(req, impl):
                 st.nontrivial.add(h)
             if impl != model:
-                findings.append(Finding("K", r, "run %s: implementation and model disagree" % k, run=k))
+                if same_up_to_representation(req, impl, model):
+                    # same rings / same map answers, differently arranged: a diagnostic, not a disagreement
+                    st.agree += 1
+                    st.representation_only = getattr(st, "representation_only", 0) + 1
+                else:
+                    findings.append(Finding("K", r, "run %s: implementation and model disagree" % k, run=k))
             else:
                 st.agree += 1
             # C03: outcome and event bound, judged on valid operands only
@@ -314,7 +365,8 @@ def evaluate(prop, results, hangs, st, bound_check=False):
                 # runs exactly what the model of the unchanged algorithm does under the same rounding
                 refs = [t.lstrip("RE").split("~")[0] for t in ch.split()[1:]]
                 refs = [t for t in refs if t.isdigit() and t in r.reqs]
-                f.k_agree = all(r.impl.get(t) == r.model.get(t) or r.impl.get(t) == "MODELONLY" for t in refs)
+                f.k_agree = all(r.impl.get(t) == r.model.get(t) or r.impl.get(t) == "MODELONLY"
+                                or same_up_to_representation(r.reqs[t], r.impl.get(t) or "", r.model.get(t) or "") for t in refs)
                 findings.append(f)
         if prop == "C16" and not invalid:
             bad = extra.c16_oracle(r)
@@ -632,7 +684,7 @@ def run_property(prop, tier, seed, replay, build=True):
         "theorems": [{"name": o["name"], "kind": o["kind"], "axioms": o.get("axioms"), "ok": o["ok"], "statement": o.get("statement", "")} for o in obligations],
         "programs": st.runs,
         "disagreements_checked": st.agree + len([f for f in findings if f.kind == "K"]),
-        "correspondence": {"runs": st.runs, "agree": st.agree, "disagree": len([f for f in findings if f.kind == "K"]), "skipped": st.skipped_runs,
+        "correspondence": {"runs": st.runs, "agree": st.agree, "agree_only_up_to_ring_order_or_tree_shape": getattr(st, "representation_only", 0), "disagree": len([f for f in findings if f.kind == "K"]), "skipped": st.skipped_runs,
                            "request_kinds": st.kinds, "implementation_outcomes": st.outcomes},
         "oracle": {"checks": st.checks, "passed": st.passed, "skipped": st.check_skips, "invalid_operand_cases": st.invalid_cases,
                    "failed": len([f for f in findings if f.kind == "O"]), "known_findings": {k: len(v) for k, v in known_hits.items()},
